@@ -229,3 +229,25 @@ register(Contract(
     modifies={'components_', 'preprocessor_', 'n_features_in_', 'A_', 'n_iter_', 'converged_'},
     prop=['C03', 'C14', 'C17']))
 C.unit('C03', 'mmc:_BaseMMC._fit')
+
+
+# ---------------------------------------------------------------------------------------------------- SDML
+def sdml_hyper(prior, seed='seed'):
+  return {'balance_param': Real(), 'sparsity_param': Real(), 'prior': prior, 'verbose': Const(VBool(False)),
+          'random_state': Int() if seed == 'seed' else NoneT()}
+
+
+def sdml_fit_cases():
+  return [Case('%s-%s' % (pn, h), {'self': est('SDML', sdml_hyper(ps), h), 'pairs': pairs_arr(), 'y': Arr(1, 'i', dims=['n'])})
+          for pn, ps in PRIORS for h in ('fresh', 'refit')]
+
+
+register(Contract(
+    'sdml:_BaseSDML._fit',
+    cases=sdml_fit_cases(),
+    ensures=model_clauses(lambda a: a.pairs.dim(2), lambda a: a.pairs.dim(2)),
+    events={'randomness-seeded': seeded, 'bookkeeping-attributes-assigned-by-every-fit': assigns('components_')},
+    raises=dict(FIT_RAISES, RuntimeError=May()),
+    modifies={'components_', 'preprocessor_', 'n_features_in_'},
+    prop=['C03', 'C13', 'C17']))
+C.unit('C03', 'sdml:_BaseSDML._fit')
